@@ -71,3 +71,32 @@ fn c22_make_query_resets() {
     assert!(get_var_id() <= 1, "a query constructor must restart variable ids");
     std::mem::forget(q);
 }
+
+// ---- start_query_timer: the thread is abstracted away, the flag reset is not -----------------
+// ThreadTimer::new() spawns a thread and start() sends it a message: both are replaced by stubs
+// (Kani has no threads).  What remains under check is what start_query_timer itself does to the
+// global state before it arms the timer.
+fn stub_timer_new() -> thread_timer::ThreadTimer {
+    // never dereferenced: start() is stubbed too and the harness forgets the value
+    unsafe { std::mem::MaybeUninit::<thread_timer::ThreadTimer>::zeroed().assume_init() }
+}
+fn stub_timer_start<F>(_t: &thread_timer::ThreadTimer, _dur: std::time::Duration, _f: F)
+        -> Result<(), thread_timer::TimerStartError>
+        where F: FnOnce() + Send + 'static {
+    std::mem::forget(_f);
+    Ok(())
+}
+
+#[kani::proof]
+#[kani::stub(thread_timer::ThreadTimer::new, stub_timer_new)]
+#[kani::stub(thread_timer::ThreadTimer::start, stub_timer_start)]
+#[kani::stub(alloc::fmt::format, stub_format)]
+fn c22_start_query_timer_resets() {
+    if kani::any() { stop_query(); }
+    let prior: usize = kani::any();
+    set_var_id(prior);
+    let t = start_query_timer(kani::any());
+    assert!(!query_stopped(), "starting the query timer must clear the stop flag of an earlier query");
+    assert!(get_var_id() == prior, "starting the timer does not touch the id counter");
+    std::mem::forget(t);
+}
